@@ -161,6 +161,9 @@ Definition prologue_with (f : N -> N -> bool * N) (c : cfg) (st : tstate) : tsta
 
 Definition prologue (c : cfg) (st : tstate) : tstate := prologue_with (auto_waste_prologue_sort Qops) c st.
 Definition prologue_batch (c : cfg) (st : tstate) : tstate := prologue_with (auto_waste_prologue_batch_sort Qops) c st.
+(* VisualSort::predict_with_scene / BatchVisualSort::predict have their own (translated) copies of the prologue *)
+Definition prologue_visual (c : cfg) (st : tstate) : tstate := prologue_with (auto_waste_prologue_visual Qops) c st.
+Definition prologue_batch_visual (c : cfg) (st : tstate) : tstate := prologue_with (auto_waste_prologue_batch_visual Qops) c st.
 
 (* EpochDb::next_epoch *)
 Definition next_epoch (st : tstate) (scene : N) : N * tstate :=
@@ -340,6 +343,30 @@ Section Tracker.
 
 End Tracker.
 
+(* The visual trackers (VisualSort, BatchVisualSort) share the whole lifecycle with SORT - same TrackerAPI, EpochDb,
+   stores, id counter, history truncation, compatible() = same scene /\ gap <= max_idle /\ constraints - and differ
+   only in HOW a call associates detections with relevant tracks (appearance voting first, Hungarian on the rest:
+   C12) and in per-track data the properties C01/C03/C04 do not mention.  In the model they are the same step
+   function with their own translated prologue and ANY association passing the interface check (given_solver). *)
+Definition tstep_with (pro : cfg -> tstate -> tstate) (G : N -> list N -> option Z) (D2R : N -> list N -> Q)
+           (solve : solver) (c : cfg) (st : tstate) (op : top) : tout * tstate :=
+  match op with
+  | Predict scene dets => let '(recs, st') := predict_core G D2R solve c (pro c st) scene dets in (ORecords recs, st')
+  | _ => tstep G D2R solve c st op
+  end.
+
+Definition trun_with (pro : cfg -> tstate -> tstate) G D2R (solve : solver) (c : cfg) (ops : list top) : list tout * tstate :=
+  fold_left (fun acc op => let '(o, st') := tstep_with pro G D2R solve c (snd acc) op in (fst acc ++ [o], st')) ops ([], init).
+
+Definition tstep_visual := tstep_with prologue_visual.
+Definition trun_visual := trun_with prologue_visual.
+
+Definition batch_step_with (pro : cfg -> tstate -> tstate) G D2R (solve : solver) (c : cfg) (st : tstate)
+           (b : list (N * list detection)) : list (N * list rec) * tstate :=
+  fold_left (fun acc sd => let '(recs, st') := predict_core G D2R solve c (snd acc) (fst sd) (snd sd) in
+                           (fst acc ++ [(fst sd, recs)], st'))
+            b ([], pro c st).
+
 (* ------------------------------------------------------------------------------------------------ *)
 (* Executable default for the assignment: exhaustive search over all gated partial matchings.
    value = sum of matched weights + thr per unmatched candidate; pairs lighter than thr are never worth
@@ -437,6 +464,32 @@ Definition hint_solver (hs : hints) : solver :=
     | None => snd best
     end.
 
+(* ------------------------------------------------------------------------------------------------ *)
+(* An association SUPPLIED from outside (per call, by tag and column names), used only if it passes the executable
+   interface check: one answer per candidate, only offered pairs, no column twice.  Otherwise "all new". *)
+Fixpoint sound_from (ps : list (nat * nat * Z)) (i : nat) (used : list nat) (a : list (option nat)) : bool :=
+  match a with
+  | [] => true
+  | None :: r => sound_from ps (S i) used r
+  | Some j :: r =>
+      negb (existsb (Nat.eqb j) used)
+      && match weight_in i j ps with Some _ => true | None => false end
+      && sound_from ps (S i) (j :: used) r
+  end.
+
+Definition sound_assignmentb (n : nat) (ps : list (nat * nat * Z)) (a : list (option nat)) : bool :=
+  Nat.eqb (length a) n && sound_from ps 0 [] a.
+
+Definition given_solver (f : N -> list N -> list (option nat)) : solver :=
+  fun tag _thr n cols ps => let a := f tag cols in if sound_assignmentb n ps a then a else repeat None n.
+
+(* the association given by track NAMES (last absorbed detection), as read off the implementation's run *)
+Definition given_by_name (hs : hints) : N -> list N -> list (option nat) :=
+  fun tag cols => match alookup tag hs with
+                  | Some h => map (fun o : option N => match o with Some nm => index_of nm cols | None => None end) h
+                  | None => []
+                  end.
+
 (* printable forms *)
 Definition rec_tuple (r : rec) := (r_id r, r_epoch r, r_scene r, r_len r, r_custom r, r_obs r, r_name r).
 Definition trk_tuple (t : trk) := (t_id t, t_scene t, t_last t, t_len t, t_custom t, t_obs t, N.of_nat (length (t_pred t)), last_uid t).
@@ -500,3 +553,38 @@ Definition run_case_with (solve : solver) (tb : otable) (c : cfg) (xs : list xop
                  xs ([], init)).
 
 Definition run_case (tb : otable) (hs : hints) (c : cfg) (xs : list xop) := run_case_with (hint_solver hs) tb c xs.
+
+(* the visual kinds: XOp = VisualSort (tstep_visual), XBatch = BatchVisualSort (one translated prologue, then the bodies);
+   the association is the implementation's own (hs); the N of every step is 1 if it passed the interface check in every
+   call of the step and 0 otherwise (a rejected association is a finding) *)
+Definition accepted_of (G : N -> list N -> option Z) (D2R : N -> list N -> Q) (f : N -> list N -> list (option nat))
+           (c : cfg) (st : tstate) (scene : N) (dets : list detection) : N :=
+  let '(epoch, st1) := next_epoch st scene in
+  let rel := filter (relevant c scene epoch) (live st1) in
+  if sound_assignmentb (length dets) (all_pairs G D2R c epoch rel dets) (f (call_tag dets) (map last_uid rel)) then 1 else 0.
+
+Definition xstep_given (G : N -> list N -> option Z) (D2R : N -> list N -> Q) (f : N -> list N -> list (option nat)) (c : cfg)
+           (st : tstate) (x : xop) : (xout * N) * tstate :=
+  match x with
+  | XOp op =>
+      let acc := match op with
+                 | Predict scene dets => accepted_of G D2R f c (prologue_visual c st) scene dets
+                 | _ => 1
+                 end in
+      let '(o, st') := tstep_visual G D2R (given_solver f) c st op in ((xout_of o, acc), st')
+  | XBatch b =>
+      let '(res, st') := batch_step_with prologue_batch_visual G D2R (given_solver f) c st b in
+      let acc := fst (fold_left (fun a sd =>
+                                   let '(t, s) := a in
+                                   let t' := accepted_of G D2R f c s (fst sd) (snd sd) in
+                                   let '(_, s') := predict_core G D2R (given_solver f) c s (fst sd) (snd sd) in
+                                   (t * t', s')) b (1, prologue_batch_visual c st)) in
+      ((XBatchOut (map (fun sr => (fst sr, map rec_tuple (snd sr))) res), acc), st')
+  end.
+
+Definition run_case_given (tb : otable) (hs : hints) (c : cfg) (xs : list xop)
+  : list (xout * N * list (N * N * N * N * option Z * list N * N * N) * list (N * N * N * N * option Z * list N * N * N)) :=
+  fst (fold_left (fun acc x =>
+                    let '((o, ok), st') := xstep_given (G_of tb) (D2R_of tb) (given_by_name hs) c (snd acc) x in
+                    (fst acc ++ [(o, ok, map trk_tuple (live st'), map trk_tuple (wasted st'))], st'))
+                 xs ([], init)).
